@@ -1,6 +1,1043 @@
-//! C10 monitor (not built yet)
-use vcore::{Args, Report};
+//! C10 — acknowledgement bookkeeping is truthful in both directions.
+//!
+//! Receive leg: real `ArcRcvdJournal` against the set R of accepted numbers.  Every generated ACK
+//! frame is enumerated (`AckFrame::iter`) and compared with R; duplicates must be refused by
+//! `decode_pn`.  "Tracked" follows the rule the property allows the journal to use for forgetting:
+//! a number may be forgotten only when everything below it is forgettable too and it was either
+//! never received or was *contained in an ACK frame* carried by one of our packets that the peer
+//! acknowledged, and it is non-eliciting or older than 3 PTO.
+//!
+//! Send leg: real `ArcSentJournal<u64>` against a map pn -> recorded frames + status, driven only
+//! through the call shapes of qconnection (new_packet → pn → record_* → build_*; rotate →
+//! update_largest → on_packet_acked per acknowledged number; rotate → may_loss_packet per number).
+//! Time is tokio's paused clock.
+use std::collections::{BTreeMap, BTreeSet};
 
-pub fn run(_args: &Args, rep: &mut Report) {
-    rep.inconclusive("monitor not built yet");
+use qbase::{
+    frame::{AckFrame, EncodeSize},
+    packet::PacketNumber,
+    varint::VarInt,
+};
+use qrecovery::journal::{ArcRcvdJournal, ArcSentJournal};
+use serde_json::{Value, json};
+use tokio::time::{Duration, Instant};
+use vcore::{Args, Report, Rng};
+
+fn vlen(x: u64) -> usize {
+    VarInt::from_u64(x).unwrap().encoding_size()
+}
+
+/// ACK frame acknowledging exactly `set` (non-empty).
+fn ack_of(set: &BTreeSet<u64>, delay: u64) -> AckFrame {
+    let rs = ranges_of(set);
+    let (hi0, lo0) = rs[0];
+    let mut prev_lo = lo0;
+    let mut ranges = vec![];
+    for (hi, lo) in &rs[1..] {
+        ranges.push((VarInt::from_u64(prev_lo - hi - 2).unwrap(), VarInt::from_u64(hi - lo).unwrap()));
+        prev_lo = *lo;
+    }
+    AckFrame::new(VarInt::from_u64(hi0).unwrap(), VarInt::from_u64(delay).unwrap(), VarInt::from_u64(hi0 - lo0).unwrap(), ranges, None)
+}
+
+fn enumerate(f: &AckFrame) -> Result<BTreeSet<u64>, String> {
+    // re-derive with checked arithmetic first so a malformed frame is a finding, not a harness panic
+    let mut right = f.largest();
+    let mut left = right.checked_sub(f.first_range()).ok_or("first_range > largest")?;
+    let mut out = BTreeSet::new();
+    out.extend(left..=right);
+    for (gap, len) in f.ranges() {
+        right = left.checked_sub(gap.into_u64() + 2).ok_or("gap runs below zero")?;
+        left = right.checked_sub(len.into_u64()).ok_or("range runs below zero")?;
+        out.extend(left..=right);
+    }
+    // and it must agree with the library's own iterator
+    let mut via_iter = BTreeSet::new();
+    for r in f.iter() {
+        via_iter.extend(r);
+    }
+    if via_iter != out {
+        return Err("AckFrame::iter disagrees with the field arithmetic".into());
+    }
+    Ok(out)
+}
+
+// ------------------------------------------------------------------------------------------------
+// receive leg
+// ------------------------------------------------------------------------------------------------
+
+#[derive(Clone, Debug)]
+enum ROp {
+    /// a packet arrives: decode its number; when accepted and `authentic`, optionally process the ACK
+    /// frame it carries (`ack_of_ours`: our packet numbers it acknowledges) and register it
+    Arrive { target: u64, base: u64, authentic: bool, eliciting: bool, pto_ms: u64, ack_of_ours: Vec<u64> },
+    /// we build a packet `pn` carrying an ACK frame
+    Gen { pn_skip: u64, largest: u64, elapsed_us: u64, cap: CapSpec },
+    Advance { ms: u64 },
+}
+
+#[derive(Clone, Copy, Debug)]
+enum CapSpec {
+    Abs(usize),
+    /// minimal frame size + delta
+    Min(i64),
+    /// size of the complete frame + delta
+    Full(i64),
+}
+
+impl ROp {
+    fn to_json(&self) -> Value {
+        match self {
+            ROp::Arrive { target, base, authentic, eliciting, pto_ms, ack_of_ours } => json!(["arrive", target, base, authentic, eliciting, pto_ms, ack_of_ours]),
+            ROp::Gen { pn_skip, largest, elapsed_us, cap } => json!(["gen", pn_skip, largest, elapsed_us, match cap {
+                CapSpec::Abs(c) => json!(["abs", c]),
+                CapSpec::Min(d) => json!(["min", d]),
+                CapSpec::Full(d) => json!(["full", d]),
+            }]),
+            ROp::Advance { ms } => json!(["advance", ms]),
+        }
+    }
+    fn from_json(v: &Value) -> ROp {
+        match v[0].as_str().unwrap() {
+            "arrive" => ROp::Arrive {
+                target: v[1].as_u64().unwrap(),
+                base: v[2].as_u64().unwrap(),
+                authentic: v[3].as_bool().unwrap(),
+                eliciting: v[4].as_bool().unwrap(),
+                pto_ms: v[5].as_u64().unwrap(),
+                ack_of_ours: v[6].as_array().unwrap().iter().map(|x| x.as_u64().unwrap()).collect(),
+            },
+            "gen" => ROp::Gen {
+                pn_skip: v[1].as_u64().unwrap(),
+                largest: v[2].as_u64().unwrap(),
+                elapsed_us: v[3].as_u64().unwrap(),
+                cap: match v[4][0].as_str().unwrap() {
+                    "abs" => CapSpec::Abs(v[4][1].as_u64().unwrap() as usize),
+                    "min" => CapSpec::Min(v[4][1].as_i64().unwrap()),
+                    _ => CapSpec::Full(v[4][1].as_i64().unwrap()),
+                },
+            },
+            _ => ROp::Advance { ms: v[1].as_u64().unwrap() },
+        }
+    }
+}
+
+struct RInfo {
+    eliciting: bool,
+    expire: Instant,
+    /// our packets whose ACK frame contained this number
+    reported_in: BTreeSet<u64>,
+    /// our packets whose ACK frame left this number out for lack of room although the journal had already
+    /// walked over it (the first range below the frame's lowest one)
+    omitted_in: BTreeSet<u64>,
+    confirmed: bool,
+    /// diagnostic mirror: confirmed by a packet whose frame contained *or merely walked over* this number
+    confirmed_lax: bool,
+    /// false when the number was registered while already below the journal's queue start (silently not recorded)
+    in_queue: bool,
+}
+
+#[derive(Default)]
+struct RStats {
+    arrivals: u64,
+    accepted: u64,
+    dup_rejected: u64,
+    old_rejected: u64,
+    fresh_refused: u64,
+    forged: u64,
+    frames: u64,
+    frames_complete: u64,
+    frames_truncated: u64,
+    frames_refused: u64,
+    acks_of_acks: u64,
+    numbers_forgotten: u64,
+    late_below_frontier: u64,
+    max_ranges: u64,
+    shapes: BTreeSet<u64>,
+}
+
+struct RModel {
+    r: BTreeMap<u64, RInfo>,
+    /// numbers below this may have been forgotten
+    frontier: u64,
+    /// diagnostic mirror of where the journal's own queue starts (it also forgets numbers that a truncated
+    /// frame walked over but did not report); used only to classify a divergence and to re-synchronise after it
+    lax: u64,
+    ack_pkts: BTreeSet<u64>,
+    peer_acked: BTreeSet<u64>,
+    our_next_pn: u64,
+}
+
+impl RModel {
+    fn expected_next(&self) -> u64 {
+        self.r.keys().next_back().map(|x| x + 1).unwrap_or(0)
+    }
+    fn tracked_upto(&self, largest: u64) -> BTreeSet<u64> {
+        if self.frontier > largest {
+            return BTreeSet::new();
+        }
+        self.r.range(self.frontier..=largest).map(|(k, _)| *k).collect()
+    }
+    fn rotate_lax(&mut self, now: Instant) {
+        let end = self.expected_next();
+        while self.lax < end {
+            match self.r.get(&self.lax) {
+                Some(i) if i.in_queue && !(i.confirmed_lax && (!i.eliciting || i.expire < now)) => break,
+                _ => self.lax += 1,
+            }
+        }
+    }
+    fn rotate(&mut self, now: Instant, st: &mut RStats) {
+        let end = self.expected_next();
+        while self.frontier < end {
+            match self.r.get(&self.frontier) {
+                None => self.frontier += 1,
+                Some(i) if i.confirmed && (!i.eliciting || i.expire < now) => {
+                    self.frontier += 1;
+                    st.numbers_forgotten += 1;
+                }
+                _ => break,
+            }
+        }
+    }
+}
+
+/// ranges (hi, lo) of a set, largest first
+fn ranges_of(set: &BTreeSet<u64>) -> Vec<(u64, u64)> {
+    let mut out: Vec<(u64, u64)> = vec![];
+    for x in set.iter().rev() {
+        match out.last_mut() {
+            Some((_, lo)) if *lo == x + 1 => *lo = *x,
+            _ => out.push((*x, *x)),
+        }
+    }
+    out
+}
+
+fn full_size(largest: u64, delay: u64, rs: &[(u64, u64)]) -> usize {
+    // rs[0] is the range holding `largest` (or empty when largest itself is untracked)
+    let (first, rest): (u64, &[(u64, u64)]) = match rs.first() {
+        Some((hi, lo)) if *hi == largest => (hi - lo, &rs[1..]),
+        _ => (0, rs),
+    };
+    let mut sz = 1 + vlen(largest) + vlen(delay) + vlen(rest.len() as u64) + vlen(first);
+    let mut prev_lo = match rs.first() {
+        Some((hi, lo)) if *hi == largest => *lo,
+        _ => largest,
+    };
+    for (hi, lo) in rest {
+        sz += vlen(prev_lo - hi - 2) + vlen(hi - lo);
+        prev_lo = *lo;
+    }
+    sz
+}
+
+type Fail = (usize, String, String);
+
+async fn run_rcvd(src: RSource<'_>) -> (Vec<Fail>, Vec<ROp>, RStats) {
+    let max_ack_delay = Duration::from_millis(25);
+    let j = ArcRcvdJournal::with_capacity(16, Some(max_ack_delay));
+    let mut m = RModel { r: BTreeMap::new(), frontier: 0, lax: 0, ack_pkts: BTreeSet::new(), peer_acked: BTreeSet::new(), our_next_pn: 0 };
+    let mut st = RStats::default();
+    let mut ops: Vec<ROp> = vec![];
+    let mut known: Vec<Fail> = vec![];
+    let mut src = src;
+    let mut step = 0usize;
+    loop {
+        let op = match &mut src {
+            RSource::Replay(v) => {
+                if step >= v.len() {
+                    break;
+                }
+                v[step].clone()
+            }
+            RSource::Gen { g, nops } => {
+                if step >= *nops {
+                    break;
+                }
+                g.next(&m)
+            }
+        };
+        ops.push(op.clone());
+        let res: Result<(), (String, String)> = async {
+            let pmap = |what: &str, p: vcore::panics::PanicRecord| (format!("panic:{}", vcore::panics::short_location(&p.location)), format!("{what} panicked: {}", p.message));
+            match op {
+                ROp::Advance { ms } => tokio::time::advance(Duration::from_millis(ms)).await,
+                ROp::Arrive { target, base, authentic, eliciting, pto_ms, ack_of_ours } => {
+                    st.arrivals += 1;
+                    let enc = PacketNumber::encode(target, base);
+                    let expected = m.expected_next();
+                    let d = enc.decode(expected);
+                    let got = vcore::panics::catch(|| j.decode_pn(enc)).map_err(|p| pmap("decode_pn", p))?;
+                    match got {
+                        Ok(x) => {
+                            if m.r.contains_key(&x) {
+                                return Err(("accept-twice".into(), format!("decode_pn accepted number {x} which was already registered as received (wire value decodes to {d})")));
+                            }
+                            if !authentic {
+                                st.forged += 1;
+                                return Ok(());
+                            }
+                            // frames of the packet are dispatched before the number is registered
+                            if !ack_of_ours.is_empty() {
+                                let set: BTreeSet<u64> = ack_of_ours.iter().copied().collect();
+                                let f = ack_of(&set, 0);
+                                vcore::panics::catch(|| j.on_rcvd_ack(&f)).map_err(|p| pmap("on_rcvd_ack", p))?;
+                                st.acks_of_acks += 1;
+                                let hit: BTreeSet<u64> = set.iter().filter(|p| m.ack_pkts.contains(p)).copied().collect();
+                                for p in &hit {
+                                    m.ack_pkts.remove(p);
+                                }
+                                m.peer_acked.extend(set.iter().copied());
+                                for i in m.r.values_mut() {
+                                    if i.reported_in.iter().any(|p| hit.contains(p)) {
+                                        i.confirmed = true;
+                                    }
+                                    if i.reported_in.iter().chain(i.omitted_in.iter()).any(|p| hit.contains(p)) {
+                                        i.confirmed_lax = true;
+                                    }
+                                }
+                                m.rotate(Instant::now(), &mut st);
+                                m.rotate_lax(Instant::now());
+                            }
+                            let pto = Duration::from_millis(pto_ms);
+                            vcore::panics::catch(|| j.on_rcvd_pn(x, eliciting, pto)).map_err(|p| pmap("on_rcvd_pn", p))?;
+                            st.accepted += 1;
+                            if x < m.frontier {
+                                st.late_below_frontier += 1;
+                            }
+                            let in_queue = x >= m.lax;
+                            m.r.insert(x, RInfo { eliciting, expire: Instant::now() + pto * 3, reported_in: BTreeSet::new(), omitted_in: BTreeSet::new(), confirmed: false, confirmed_lax: false, in_queue });
+                        }
+                        Err(_e) => {
+                            if m.r.contains_key(&d) {
+                                st.dup_rejected += 1;
+                            } else {
+                                st.old_rejected += 1;
+                                if d >= m.frontier {
+                                    st.fresh_refused += 1;
+                                }
+                            }
+                        }
+                    }
+                }
+                ROp::Gen { pn_skip, largest, elapsed_us, cap } => {
+                    let pn = m.our_next_pn + pn_skip;
+                    m.our_next_pn = pn + 1;
+                    let now = Instant::now();
+                    let Some(rcvd_time) = now.checked_sub(Duration::from_micros(elapsed_us)) else { return Ok(()) };
+                    let tracked = m.tracked_upto(largest);
+                    let rs = ranges_of(&tracked);
+                    let first = match rs.first() {
+                        Some((hi, lo)) if *hi == largest => hi - lo,
+                        _ => 0,
+                    };
+                    let min_sz = 1 + vlen(largest) + vlen(elapsed_us) + 1 + vlen(first);
+                    let full_sz = full_size(largest, elapsed_us, &rs);
+                    let capacity = match cap {
+                        CapSpec::Abs(c) => c,
+                        CapSpec::Min(d) => (min_sz as i64 + d).max(0) as usize,
+                        CapSpec::Full(d) => (full_sz as i64 + d).max(0) as usize,
+                    };
+                    st.frames += 1;
+                    let got = vcore::panics::catch(|| j.gen_ack_frame_util(pn, largest, rcvd_time, capacity)).map_err(|p| pmap("gen_ack_frame_util", p))?;
+                    let ctx = format!("gen_ack_frame_util(pn {pn}, largest {largest}, capacity {capacity}); complete frame needs {full_sz}, minimal {min_sz}");
+                    match got {
+                        Err(sig) => {
+                            st.frames_refused += 1;
+                            if capacity >= min_sz {
+                                return Err(("ack-refused".into(), format!("{ctx}: refused with {sig:?} although the minimal frame fits")));
+                            }
+                        }
+                        Ok(f) => {
+                            let a = enumerate(&f).map_err(|e| ("ack-malformed".to_string(), format!("{ctx}: {e}: {f:?}")))?;
+                            if f.encoding_size() > capacity {
+                                return Err(("ack-overflow".into(), format!("{ctx}: frame encodes to {} bytes", f.encoding_size())));
+                            }
+                            if f.largest() != largest || a.iter().next_back() != Some(&largest) {
+                                return Err(("ack-largest".into(), format!("{ctx}: frame reports largest {}", f.largest())));
+                            }
+                            if let Some(x) = a.iter().find(|x| !m.r.contains_key(x)) {
+                                return Err(("ack-phantom".into(), format!("{ctx}: frame acknowledges {x} which was never registered as received; frame {f:?}")));
+                            }
+                            // largest-first prefix of the tracked numbers: no hole above the lowest acknowledged one
+                            let lowest = *a.iter().next().unwrap();
+                            if let Some(x) = tracked.iter().find(|x| **x > lowest && !a.contains(x)) {
+                                return Err(("ack-hole".into(), format!("{ctx}: frame skips received number {x} but acknowledges lower ones down to {lowest}")));
+                            }
+                            let missing: Vec<u64> = tracked.iter().filter(|x| **x < lowest).copied().collect();
+                            if missing.is_empty() {
+                                st.frames_complete += 1;
+                            } else {
+                                st.frames_truncated += 1;
+                                // next range the frame left out
+                                let nhi = *missing.last().unwrap();
+                                let mut nlo = nhi;
+                                while nlo > 0 && tracked.contains(&(nlo - 1)) {
+                                    nlo -= 1;
+                                }
+                                let next_cost = vlen(lowest.saturating_sub(nhi + 2)) + vlen(nhi - nlo);
+                                if capacity >= f.encoding_size() + next_cost + 16 {
+                                    let what = format!("{ctx}: frame ({} bytes) leaves out received numbers {nlo}..={nhi} (never reported in any ACK frame) although {} more bytes were available; frame {f:?}", f.encoding_size(), capacity - f.encoding_size());
+                                    if nhi < m.lax {
+                                        // explained by the diagnostic mirror: the journal forgot numbers that a capacity-truncated
+                                        // frame had walked over without reporting them.  Report, adopt the journal's view, go on.
+                                        known.push((step, "ack-incomplete:forgotten-after-truncated-ack".to_string(), what));
+                                        m.frontier = m.frontier.max(m.lax);
+                                    } else {
+                                        return Err(("ack-incomplete:room-left".to_string(), what));
+                                    }
+                                }
+                            }
+                            st.max_ranges = st.max_ranges.max(f.ranges().len() as u64);
+                            st.shapes.insert(vcore::fnv(format!("{}:{}:{}", f.ranges().len().min(40), missing.is_empty(), vlen(largest)).as_bytes()));
+                            m.ack_pkts.insert(pn);
+                            // mirror: the first run of queued numbers below the frame's lowest one was walked over
+                            let mut walked: Vec<u64> = vec![];
+                            for (k, i) in m.r.range(..lowest).rev() {
+                                if *k < m.lax {
+                                    break;
+                                }
+                                if !i.in_queue {
+                                    if walked.is_empty() { continue } else { break }
+                                }
+                                match walked.last() {
+                                    Some(l) if *l != k + 1 => break,
+                                    _ => walked.push(*k),
+                                }
+                            }
+                            for (k, i) in m.r.range_mut(..=largest) {
+                                if a.contains(k) {
+                                    i.reported_in.insert(pn);
+                                } else if walked.contains(k) {
+                                    i.omitted_in.insert(pn);
+                                }
+                            }
+                        }
+                    }
+                }
+            }
+            Ok(())
+        }
+        .await;
+        if let Err((c, d)) = res {
+            known.push((step, c, d));
+            break;
+        }
+        step += 1;
+    }
+    (known, ops, st)
+}
+
+enum RSource<'a> {
+    Gen { g: RGen, nops: usize },
+    Replay(&'a [ROp]),
+}
+
+struct RGen {
+    rng: Rng,
+    style: u64,
+    window: u64,
+}
+
+impl RGen {
+    fn next(&mut self, m: &RModel) -> ROp {
+        let rng = &mut self.rng;
+        let next = m.expected_next();
+        let k = rng.below(100);
+        let (w_arr, w_gen) = match self.style {
+            0 => (70, 22),
+            1 => (55, 35),
+            _ => (80, 14),
+        };
+        if k < w_arr || m.r.is_empty() {
+            // which number arrives
+            let target = match rng.below(20) {
+                0..=8 => next + if self.style == 2 { rng.below(3) } else { 0 },
+                9..=12 => next + rng.range(1, self.window.min(12)),
+                13 => next + rng.range(1, self.window),
+                14 | 15 if !m.r.is_empty() => {
+                    // a duplicate
+                    let n = m.r.len();
+                    *m.r.keys().nth(rng.usize(n)).unwrap()
+                }
+                16 | 17 => {
+                    // something in a gap / late
+                    let lo = m.frontier.saturating_sub(3);
+                    rng.range(lo, next.max(lo))
+                }
+                _ => rng.range(0, next),
+            };
+            let base = match rng.below(4) {
+                0 => 0,
+                1 => target.saturating_sub(rng.range(1, 200)),
+                _ => m.frontier.min(target).saturating_sub(1),
+            };
+            let ack_of_ours = if !m.ack_pkts.is_empty() && rng.chance(1, 4) || (m.our_next_pn > 0 && rng.chance(1, 25)) {
+                let mut v: Vec<u64> = vec![];
+                for p in m.ack_pkts.iter() {
+                    if rng.chance(2, 3) {
+                        v.push(*p);
+                    }
+                }
+                // plus packets of ours that carried no ACK
+                for _ in 0..rng.below(3) {
+                    v.push(rng.below(m.our_next_pn.max(1)));
+                }
+                v.sort();
+                v.dedup();
+                v
+            } else {
+                vec![]
+            };
+            return ROp::Arrive {
+                target,
+                base,
+                authentic: !rng.chance(1, 16),
+                eliciting: rng.chance(2, 3),
+                pto_ms: *rng.pick(&[1u64, 30, 100, 300]),
+                ack_of_ours,
+            };
+        }
+        if k < w_arr + w_gen {
+            let n = m.r.len();
+            let largest = match rng.below(8) {
+                0 => *m.r.keys().nth(rng.usize(n)).unwrap(),
+                _ => *m.r.keys().next_back().unwrap(),
+            };
+            let cap = match rng.below(12) {
+                0 => CapSpec::Min(-1),
+                1 => CapSpec::Min(0),
+                2 => CapSpec::Min(rng.range(1, 6) as i64),
+                3 => CapSpec::Full(-1),
+                4 => CapSpec::Full(0),
+                5 => CapSpec::Full(rng.range(1, 15) as i64),
+                6 => CapSpec::Full(16),
+                7 => CapSpec::Abs(rng.range(0, 40) as usize),
+                8 => CapSpec::Full(-(rng.range(2, 30) as i64)),
+                _ => CapSpec::Abs(*rng.pick(&[1200usize, 1500, 200, 64])),
+            };
+            return ROp::Gen { pn_skip: if rng.chance(1, 5) { rng.range(1, 4) } else { 0 }, largest, elapsed_us: *rng.pick(&[0u64, 10, 63, 64, 900, 16_383, 16_384, 25_000]), cap };
+        }
+        ROp::Advance { ms: *rng.pick(&[1u64, 10, 90, 400, 1000]) }
+    }
+}
+
+// ------------------------------------------------------------------------------------------------
+// send leg
+// ------------------------------------------------------------------------------------------------
+
+#[derive(Clone, Debug)]
+enum SOp {
+    /// nframes recorded frames, `trivial`: a non-retransmittable frame is recorded too; `via_trivial`: build_trivial()
+    Send { nframes: usize, trivial: bool, via_trivial: bool, retran_ms: u64, expire_ms: u64 },
+    Ack { pns: Vec<u64> },
+    Loss { pns: Vec<u64> },
+    FastRetx,
+    Advance { ms: u64 },
+}
+
+impl SOp {
+    fn to_json(&self) -> Value {
+        match self {
+            SOp::Send { nframes, trivial, via_trivial, retran_ms, expire_ms } => json!(["send", nframes, trivial, via_trivial, retran_ms, expire_ms]),
+            SOp::Ack { pns } => json!(["ack", pns]),
+            SOp::Loss { pns } => json!(["loss", pns]),
+            SOp::FastRetx => json!(["fastretx"]),
+            SOp::Advance { ms } => json!(["advance", ms]),
+        }
+    }
+    fn from_json(v: &Value) -> SOp {
+        let list = |x: &Value| x.as_array().unwrap().iter().map(|y| y.as_u64().unwrap()).collect::<Vec<_>>();
+        match v[0].as_str().unwrap() {
+            "send" => SOp::Send {
+                nframes: v[1].as_u64().unwrap() as usize,
+                trivial: v[2].as_bool().unwrap(),
+                via_trivial: v[3].as_bool().unwrap(),
+                retran_ms: v[4].as_u64().unwrap(),
+                expire_ms: v[5].as_u64().unwrap(),
+            },
+            "ack" => SOp::Ack { pns: list(&v[1]) },
+            "loss" => SOp::Loss { pns: list(&v[1]) },
+            "fastretx" => SOp::FastRetx,
+            _ => SOp::Advance { ms: v[1].as_u64().unwrap() },
+        }
+    }
+}
+
+#[derive(Clone, Copy, PartialEq, Debug)]
+enum SStatus {
+    Flight,
+    Lost,
+    Acked,
+    /// declared lost, expired and observed to be forgotten
+    Gone,
+}
+
+struct SPkt {
+    frames: Vec<u64>,
+    status: SStatus,
+    retran_at: Instant,
+    expire_at: Instant,
+}
+
+#[derive(Default)]
+struct SStats {
+    packets: u64,
+    packets_with_frames: u64,
+    trivial_packets: u64,
+    abandoned_guards: u64,
+    frames_recorded: u64,
+    ack_calls: u64,
+    frames_delivered: u64,
+    repeated_acks: u64,
+    ack_after_loss: u64,
+    ack_unknown: u64,
+    loss_calls: u64,
+    frames_reported_lost: u64,
+    repeated_loss: u64,
+    loss_after_ack: u64,
+    forgotten_after_expiry: u64,
+    fast_retx_calls: u64,
+    fast_retx_frames: u64,
+    max_frames_per_packet: u64,
+}
+
+fn multiset_eq(a: &[u64], b: &[u64]) -> bool {
+    let mut x = a.to_vec();
+    let mut y = b.to_vec();
+    x.sort();
+    y.sort();
+    x == y
+}
+
+async fn run_sent(src: SSource<'_>) -> (Option<Fail>, Vec<SOp>, SStats) {
+    let j: ArcSentJournal<u64> = ArcSentJournal::with_capacity(4);
+    let mut pkts: BTreeMap<u64, SPkt> = BTreeMap::new();
+    let mut next_pn = 0u64;
+    let mut next_frame = 1u64;
+    let mut largest_acked = 0u64;
+    let mut st = SStats::default();
+    let mut ops = vec![];
+    let mut fail = None;
+    let mut src = src;
+    let mut step = 0usize;
+    loop {
+        let op = match &mut src {
+            SSource::Replay(v) => {
+                if step >= v.len() {
+                    break;
+                }
+                v[step].clone()
+            }
+            SSource::Gen { g, nops } => {
+                if step >= *nops {
+                    break;
+                }
+                g.next(next_pn, &pkts)
+            }
+        };
+        ops.push(op.clone());
+        let res: Result<(), (String, String)> = async {
+            let pmap = |what: &str, p: vcore::panics::PanicRecord| (format!("panic:{}", vcore::panics::short_location(&p.location)), format!("{what} panicked: {}", p.message));
+            match op {
+                SOp::Advance { ms } => tokio::time::advance(Duration::from_millis(ms)).await,
+                SOp::Send { nframes, trivial, via_trivial, retran_ms, expire_ms } => {
+                    let frames: Vec<u64> = (0..nframes as u64).map(|k| next_frame + k).collect();
+                    next_frame += nframes as u64;
+                    let now = Instant::now();
+                    let got_pn = vcore::panics::catch(|| {
+                        let mut g = j.new_packet();
+                        let (pn, _enc) = g.pn();
+                        // interleave as a packet assembler would: retransmittable and trivial frames in any order
+                        let mut t_done = !trivial;
+                        for (k, f) in frames.iter().enumerate() {
+                            if !t_done && k == frames.len() / 2 {
+                                g.record_trivial();
+                                t_done = true;
+                            }
+                            g.record_frame(*f);
+                        }
+                        if !t_done {
+                            g.record_trivial();
+                        }
+                        if nframes == 0 && !trivial {
+                            drop(g); // nothing was written: the assembler gives the packet up
+                        } else if nframes == 0 && via_trivial {
+                            g.build_trivial();
+                        } else {
+                            g.build_with_time(Duration::from_millis(retran_ms), Duration::from_millis(expire_ms));
+                        }
+                        pn
+                    })
+                    .map_err(|p| pmap("new_packet/record/build", p))?;
+                    if got_pn != next_pn {
+                        return Err(("pn-sequence".into(), format!("new_packet().pn() = {got_pn}, model expects {next_pn}")));
+                    }
+                    if nframes > 0 {
+                        st.packets += 1;
+                        st.packets_with_frames += 1;
+                        st.frames_recorded += nframes as u64;
+                        st.max_frames_per_packet = st.max_frames_per_packet.max(nframes as u64);
+                        pkts.insert(next_pn, SPkt { frames, status: SStatus::Flight, retran_at: now + Duration::from_millis(retran_ms), expire_at: now + Duration::from_millis(expire_ms) });
+                        next_pn += 1;
+                    } else if trivial {
+                        st.packets += 1;
+                        st.trivial_packets += 1;
+                        next_pn += 1;
+                    } else {
+                        st.abandoned_guards += 1;
+                    }
+                }
+                SOp::Ack { pns } => {
+                    if pns.is_empty() {
+                        return Ok(());
+                    }
+                    let set: BTreeSet<u64> = pns.iter().copied().collect();
+                    let f = ack_of(&set, 0);
+                    let order: Vec<u64> = f.iter().flat_map(|r| r.rev()).collect();
+                    let got = vcore::panics::catch(|| {
+                        let mut g = j.rotate();
+                        if g.update_largest(&f).is_err() {
+                            return None;
+                        }
+                        let mut out = vec![];
+                        for pn in &order {
+                            out.push((*pn, g.on_packet_acked(*pn).collect::<Vec<u64>>()));
+                        }
+                        Some(out)
+                    })
+                    .map_err(|p| pmap("rotate/update_largest/on_packet_acked", p))?;
+                    let Some(got) = got else {
+                        return Err(("ack-rejected".into(), format!("update_largest rejected an ACK whose largest {} was sent (next unsent is {next_pn})", f.largest())));
+                    };
+                    largest_acked = largest_acked.max(f.largest());
+                    let now = Instant::now();
+                    for (pn, frames) in got {
+                        st.ack_calls += 1;
+                        match pkts.get_mut(&pn) {
+                            None => {
+                                st.ack_unknown += 1;
+                                if !frames.is_empty() {
+                                    return Err(("ack-yield:unrecorded-packet".into(), format!("on_packet_acked({pn}) yielded {frames:?} but packet {pn} carried no recorded frame")));
+                                }
+                            }
+                            Some(p) => match p.status {
+                                SStatus::Acked | SStatus::Gone => {
+                                    st.repeated_acks += 1;
+                                    if !frames.is_empty() {
+                                        return Err((
+                                            if p.status == SStatus::Acked { "ack-yield:twice".to_string() } else { "ack-yield:after-forgotten".to_string() },
+                                            format!("on_packet_acked({pn}) yielded {frames:?} again; the packet was already {:?}", p.status),
+                                        ));
+                                    }
+                                }
+                                SStatus::Flight | SStatus::Lost => {
+                                    let forgettable = p.status == SStatus::Lost && p.expire_at <= now;
+                                    if frames.is_empty() && forgettable {
+                                        st.forgotten_after_expiry += 1;
+                                        p.status = SStatus::Gone;
+                                    } else if multiset_eq(&frames, &p.frames) {
+                                        st.frames_delivered += frames.len() as u64;
+                                        st.ack_after_loss += (p.status == SStatus::Lost) as u64;
+                                        p.status = SStatus::Acked;
+                                    } else {
+                                        return Err((
+                                            if frames.is_empty() { "ack-yield:nothing".to_string() } else { "ack-yield:wrong-frames".to_string() },
+                                            format!("on_packet_acked({pn}) yielded {frames:?}, packet {pn} ({:?}) carried {:?}", p.status, p.frames),
+                                        ));
+                                    }
+                                }
+                            },
+                        }
+                    }
+                }
+                SOp::Loss { pns } => {
+                    let got = vcore::panics::catch(|| {
+                        let mut g = j.rotate();
+                        let mut out = vec![];
+                        for pn in &pns {
+                            out.push((*pn, g.may_loss_packet(*pn).collect::<Vec<u64>>()));
+                        }
+                        out
+                    })
+                    .map_err(|p| pmap("rotate/may_loss_packet", p))?;
+                    let now = Instant::now();
+                    for (pn, frames) in got {
+                        st.loss_calls += 1;
+                        match pkts.get_mut(&pn) {
+                            None => {
+                                if !frames.is_empty() {
+                                    return Err(("loss-yield:unrecorded-packet".into(), format!("may_loss_packet({pn}) yielded {frames:?} but packet {pn} carried no recorded frame")));
+                                }
+                            }
+                            Some(p) => match p.status {
+                                SStatus::Acked | SStatus::Gone => {
+                                    st.loss_after_ack += 1;
+                                    if !frames.is_empty() {
+                                        return Err(("loss-yield:after-ack".into(), format!("may_loss_packet({pn}) yielded {frames:?} although the packet was already {:?}", p.status)));
+                                    }
+                                }
+                                SStatus::Flight | SStatus::Lost => {
+                                    let forgettable = p.status == SStatus::Lost && p.expire_at <= now;
+                                    if frames.is_empty() && forgettable {
+                                        st.forgotten_after_expiry += 1;
+                                        p.status = SStatus::Gone;
+                                    } else if multiset_eq(&frames, &p.frames) {
+                                        st.frames_reported_lost += frames.len() as u64;
+                                        st.repeated_loss += (p.status == SStatus::Lost) as u64;
+                                        p.status = SStatus::Lost;
+                                    } else {
+                                        return Err((
+                                            if frames.is_empty() { "loss-yield:nothing".to_string() } else { "loss-yield:wrong-frames".to_string() },
+                                            format!("may_loss_packet({pn}) yielded {frames:?}, unacknowledged packet {pn} ({:?}) carried {:?}", p.status, p.frames),
+                                        ));
+                                    }
+                                }
+                            },
+                        }
+                    }
+                }
+                SOp::FastRetx => {
+                    st.fast_retx_calls += 1;
+                    let now = Instant::now();
+                    let got = vcore::panics::catch(|| {
+                        let mut g = j.rotate();
+                        g.fast_retransmit().collect::<Vec<u64>>()
+                    })
+                    .map_err(|p| pmap("fast_retransmit", p))?;
+                    let mut exp = vec![];
+                    for (pn, p) in pkts.iter_mut() {
+                        if *pn < largest_acked && p.status == SStatus::Flight && p.retran_at < now {
+                            exp.extend(p.frames.iter().copied());
+                            p.status = SStatus::Lost;
+                        }
+                    }
+                    st.fast_retx_frames += got.len() as u64;
+                    if !multiset_eq(&got, &exp) {
+                        return Err(("fast-retransmit".into(), format!("fast_retransmit yielded {got:?}; unacknowledged in-flight packets below the largest acknowledged ({largest_acked}) past their retransmit time carry {exp:?}")));
+                    }
+                }
+            }
+            Ok(())
+        }
+        .await;
+        if let Err((c, d)) = res {
+            fail = Some((step, c, d));
+            break;
+        }
+        step += 1;
+    }
+    (fail, ops, st)
+}
+
+enum SSource<'a> {
+    Gen { g: SGen, nops: usize },
+    Replay(&'a [SOp]),
+}
+
+struct SGen {
+    rng: Rng,
+    style: u64,
+}
+
+impl SGen {
+    fn some_pns(&mut self, next_pn: u64, pkts: &BTreeMap<u64, SPkt>, prefer_open: bool) -> Vec<u64> {
+        let rng = &mut self.rng;
+        let mut v = vec![];
+        if next_pn == 0 {
+            return v;
+        }
+        let open: Vec<u64> = pkts.iter().filter(|(_, p)| matches!(p.status, SStatus::Flight | SStatus::Lost)).map(|(k, _)| *k).collect();
+        let n = rng.range(1, 5);
+        for _ in 0..n {
+            let base = if prefer_open && !open.is_empty() && rng.chance(3, 4) { *rng.pick(&open) } else { rng.below(next_pn) };
+            let run = if rng.chance(1, 3) { rng.range(1, 4) } else { 1 };
+            for k in 0..run {
+                if base + k < next_pn {
+                    v.push(base + k);
+                }
+            }
+        }
+        v.sort();
+        v.dedup();
+        v
+    }
+    fn next(&mut self, next_pn: u64, pkts: &BTreeMap<u64, SPkt>) -> SOp {
+        let k = self.rng.below(100);
+        let (w_send, w_ack, w_loss, w_fr) = match self.style {
+            0 => (40, 25, 20, 3),
+            1 => (30, 20, 35, 3),
+            2 => (30, 40, 15, 3),
+            _ => (40, 25, 22, 0),
+        };
+        if k < w_send || next_pn == 0 {
+            let nframes = match self.rng.below(10) {
+                0 | 1 => 0,
+                2..=5 => 1,
+                6 | 7 => self.rng.range(2, 4) as usize,
+                8 => self.rng.range(5, 12) as usize,
+                _ => self.rng.range(13, 40) as usize,
+            };
+            let trivial = self.rng.chance(1, 2);
+            return SOp::Send {
+                nframes,
+                trivial,
+                via_trivial: self.rng.bool(),
+                retran_ms: *self.rng.pick(&[0u64, 5, 40, 125]),
+                expire_ms: *self.rng.pick(&[1u64, 30, 100, 999]),
+            };
+        }
+        if k < w_send + w_ack {
+            return SOp::Ack { pns: self.some_pns(next_pn, pkts, true) };
+        }
+        if k < w_send + w_ack + w_loss {
+            let mut pns = self.some_pns(next_pn, pkts, true);
+            if self.rng.chance(1, 6) {
+                // the same number reported twice in one batch
+                if let Some(x) = pns.first().copied() {
+                    pns.push(x);
+                }
+            }
+            return SOp::Loss { pns };
+        }
+        if k < w_send + w_ack + w_loss + w_fr {
+            return SOp::FastRetx;
+        }
+        SOp::Advance { ms: *self.rng.pick(&[1u64, 6, 31, 101, 1000]) }
+    }
+}
+
+// ------------------------------------------------------------------------------------------------
+
+fn add_rstats(rep: &mut Report, st: &RStats) {
+    rep.add("rcvd_arrivals", st.arrivals);
+    rep.add("rcvd_accepted", st.accepted);
+    rep.add("rcvd_duplicates_rejected", st.dup_rejected);
+    rep.add("rcvd_old_rejected", st.old_rejected);
+    rep.add("rcvd_never_received_but_refused", st.fresh_refused);
+    rep.add("rcvd_forged_not_registered", st.forged);
+    rep.add("ack_frames_requested", st.frames);
+    rep.add("ack_frames_complete", st.frames_complete);
+    rep.add("ack_frames_truncated", st.frames_truncated);
+    rep.add("ack_frames_refused", st.frames_refused);
+    rep.add("acks_of_our_acks", st.acks_of_acks);
+    rep.add("numbers_forgettable", st.numbers_forgotten);
+    rep.add("late_arrivals_below_frontier", st.late_below_frontier);
+    rep.max("max_ack_ranges", st.max_ranges);
+    for h in &st.shapes {
+        rep.set("ack_frame_shapes", *h);
+    }
+}
+
+fn add_sstats(rep: &mut Report, st: &SStats) {
+    rep.add("sent_packets", st.packets);
+    rep.add("sent_packets_with_frames", st.packets_with_frames);
+    rep.add("sent_trivial_packets", st.trivial_packets);
+    rep.add("sent_abandoned_guards", st.abandoned_guards);
+    rep.add("sent_frames_recorded", st.frames_recorded);
+    rep.add("sent_ack_calls", st.ack_calls);
+    rep.add("sent_frames_delivered", st.frames_delivered);
+    rep.add("sent_repeated_acks", st.repeated_acks);
+    rep.add("sent_ack_after_loss", st.ack_after_loss);
+    rep.add("sent_ack_of_frameless_number", st.ack_unknown);
+    rep.add("sent_loss_calls", st.loss_calls);
+    rep.add("sent_frames_reported_lost", st.frames_reported_lost);
+    rep.add("sent_repeated_loss", st.repeated_loss);
+    rep.add("sent_loss_after_ack", st.loss_after_ack);
+    rep.add("sent_forgotten_after_expiry", st.forgotten_after_expiry);
+    rep.add("sent_fast_retransmit_calls", st.fast_retx_calls);
+    rep.add("sent_fast_retransmit_frames", st.fast_retx_frames);
+    rep.max("max_frames_per_packet", st.max_frames_per_packet);
+}
+
+fn fnv_json(leg: &str, ops: &[Value]) -> u64 {
+    let mut h = vcore::fnv_str(leg);
+    for o in ops {
+        for b in o.to_string().bytes() {
+            h = (h ^ b as u64).wrapping_mul(0x100000001b3);
+        }
+    }
+    h
+}
+
+pub fn run(args: &Args, rep: &mut Report) {
+    rep.rule = "history = op sequence on one journal (receive leg: arrivals / ACK generation / acks of our ACK packets / time; \
+                send leg: packets with recorded frames / ack / loss / fast-retransmit / time); distinct = distinct (leg, op sequence) \
+                hashes; non-trivial = receive leg: at least one capacity-truncated ACK frame and one duplicate refused; send leg: at \
+                least one packet acknowledged after being declared lost or acknowledged twice"
+        .into();
+    let rt = tokio::runtime::Builder::new_current_thread().enable_time().start_paused(true).build().unwrap();
+    if let Some(path) = args.get("replay") {
+        let v: Value = serde_json::from_str(&std::fs::read_to_string(path).unwrap()).unwrap();
+        let v = if v.get("replay").is_some() { v["replay"].clone() } else { v };
+        rep.evaluations += 1;
+        match v["leg"].as_str().unwrap_or("") {
+            "rcvd" => {
+                let ops: Vec<ROp> = v["ops"].as_array().unwrap().iter().map(ROp::from_json).collect();
+                let (fails, ops, _) = rt.block_on(run_rcvd(RSource::Replay(&ops)));
+                for (step, c, d) in fails {
+                    rep.violation(format!("C10.{c}"), format!("rcvd leg, step {step}: {d}"), json!({"kind":"c10","leg":"rcvd","ops":ops[..=step].iter().map(|o|o.to_json()).collect::<Vec<_>>()}));
+                }
+            }
+            "sent" => {
+                let ops: Vec<SOp> = v["ops"].as_array().unwrap().iter().map(SOp::from_json).collect();
+                let (fail, ops, _) = rt.block_on(run_sent(SSource::Replay(&ops)));
+                if let Some((step, c, d)) = fail {
+                    rep.violation(format!("C10.{c}"), format!("sent leg, step {step}: {d}"), json!({"kind":"c10","leg":"sent","ops":ops.iter().map(|o|o.to_json()).collect::<Vec<_>>()}));
+                }
+            }
+            other => rep.inconclusive(format!("unknown leg {other:?}")),
+        }
+        return;
+    }
+    let thorough = args.get("tier") == Some("thorough");
+    let shard = args.u64("shard", 0);
+    let n = args.budget(if thorough { 40_000 } else { 2_000 });
+    let mut rng = Rng::new(args.seed() ^ 0xc10).fork(shard);
+    for i in 0..n {
+        if i % 2 == 0 {
+            let window = *rng.pick(&[4u64, 30, 300, 5000]);
+            let g = RGen { rng: rng.fork(i), style: rng.below(3), window };
+            let nops = match rng.below(4) {
+                0 => rng.range(10, 60),
+                1 | 2 => rng.range(60, 250),
+                _ => rng.range(250, 900),
+            } as usize;
+            let (fails, ops, st) = rt.block_on(run_rcvd(RSource::Gen { g, nops }));
+            rep.evaluations += 1;
+            add_rstats(rep, &st);
+            let js: Vec<Value> = ops.iter().map(|o| o.to_json()).collect();
+            if st.frames_truncated > 0 && st.dup_rejected > 0 {
+                rep.distinct(fnv_json("rcvd", &js));
+            }
+            if i < 2 {
+                rep.sample(json!({"leg":"rcvd","n_ops":js.len(),"first_ops":js.iter().take(10).collect::<Vec<_>>()}));
+            }
+            for (step, c, d) in fails {
+                rep.violation(format!("C10.{c}"), format!("rcvd leg, step {step}: {d}"), json!({"kind":"c10","leg":"rcvd","ops":js[..=step]}));
+            }
+        } else {
+            let g = SGen { rng: rng.fork(i), style: rng.below(4) };
+            let nops = match rng.below(4) {
+                0 => rng.range(5, 40),
+                1 | 2 => rng.range(40, 150),
+                _ => rng.range(150, 500),
+            } as usize;
+            let (fail, ops, st) = rt.block_on(run_sent(SSource::Gen { g, nops }));
+            rep.evaluations += 1;
+            add_sstats(rep, &st);
+            let js: Vec<Value> = ops.iter().map(|o| o.to_json()).collect();
+            if st.ack_after_loss > 0 || st.repeated_acks > 0 {
+                rep.distinct(fnv_json("sent", &js));
+            }
+            if i < 3 {
+                rep.sample(json!({"leg":"sent","n_ops":js.len(),"first_ops":js.iter().take(10).collect::<Vec<_>>()}));
+            }
+            if let Some((step, c, d)) = fail {
+                rep.violation(format!("C10.{c}"), format!("sent leg, step {step}: {d}"), json!({"kind":"c10","leg":"sent","ops":js}));
+            }
+        }
+    }
+    rep.add("histories", n);
 }
